@@ -14,6 +14,25 @@ func (fr *Frame) exec(ins ssa.Instruction) bool {
 	b, w := fr.b(), fr.w()
 	switch n := ins.(type) {
 	case *ssa.DebugRef:
+		// source-level names of locals become available to loop invariants and step clauses
+		if obj, ok := n.Object().(*types.Var); ok && obj != nil && !obj.IsField() && obj.Pkg() != nil && obj.Parent() != obj.Pkg().Scope() {
+			if _, isParam := fr.vars[obj.Name()]; isParam && fr.isParamName(obj.Name()) {
+				return false
+			}
+			if v, ok := fr.tryVal(n.X); ok && v.t != nil {
+				if fr.localVars == nil {
+					fr.localVars = map[string]Val{}
+				}
+				if n.IsAddr {
+					if pt, ok := n.X.Type().Underlying().(*types.Pointer); ok {
+						fr.localVars[obj.Name()] = Val{t: v.t, typ: pt.Elem(), isAddr: true}
+					}
+				} else {
+					v.typ = n.X.Type()
+					fr.localVars[obj.Name()] = v
+				}
+			}
+		}
 		return false
 	case *ssa.Alloc:
 		fr.cx.newN++
@@ -40,6 +59,14 @@ func (fr *Frame) exec(ins ssa.Instruction) bool {
 	case *ssa.MakeInterface:
 		v := fr.val(n.X)
 		v.typ = n.X.Type()
+		if v.t.sort == SSlice {
+			// boxing a slice allocates a box holding the slice header
+			fr.cx.newN++
+			box := b.NewObj(fr.cx.newN)
+			fr.cx.store(fr.st, box, v.typ, v.t)
+			fr.vals[n] = Val{t: b.Name(n.Name(), w.mkIface(b.Int(int64(w.typeID(v.typ))), box, b.BV(0, 64))), typ: n.Type()}
+			break
+		}
 		fr.vals[n] = Val{t: b.Name(n.Name(), fr.cx.box(v)), typ: n.Type()}
 	case *ssa.TypeAssert:
 		fr.typeAssert(n)
@@ -463,7 +490,7 @@ func (fr *Frame) typeAssert(n *ssa.TypeAssert) {
 		}
 	} else {
 		ok = b.Eq(w.itype(x.t), b.Int(int64(w.typeID(at))))
-		v = fr.cx.unbox(x.t, at)
+		v = fr.cx.unboxSt(fr.st, x.t, at)
 	}
 	if n.CommaOk {
 		zero := w.zero(at)
